@@ -732,6 +732,7 @@ class SymSeqIteration(Unsupported):
     """raised by concrete_iter for a SymSeq: the caller either knows a quantified rule for it or reports Unsupported"""
 
     def __init__(self, seq):
+        Unsupported.__init__(self, 'iteration over a sequence of symbolic length (%s) outside any()/all() over a generator expression' % seq.name)
         self.seq = seq
 
 
